@@ -55,7 +55,7 @@ impl SrcProp {
             Which::C09 => &[Focus::Math],
             Which::C10 => &[Focus::Literals, Focus::Code],
             Which::C11 => &[Focus::Any, Focus::Prose, Focus::Comments, Focus::Literals],
-            Which::C12 => &[Focus::Breaks, Focus::Code, Focus::Comments, Focus::Any],
+            Which::C12 => &[Focus::Breaks, Focus::Code, Focus::Comments, Focus::Any, Focus::Imports],
             Which::C13 => &[Focus::Any, Focus::Code, Focus::Math, Focus::Prose],
             Which::C19 => &[Focus::Imports],
         }
@@ -73,6 +73,9 @@ impl SrcProp {
         match self.which {
             Which::C01 | Which::C03 => 48,
             Which::C04 | Which::C11 => 24,
+            // every public Config field varies unless the oracle needs the item order itself (C06, C10) or
+            // sets the option itself (C19); seeded change C12-9 only exists with reordering on
+            Which::C07 | Which::C08 | Which::C09 | Which::C12 => 24,
             _ => 0,
         }
     }
@@ -402,7 +405,7 @@ impl Prop for SrcProp {
                     origin.push_str("+damaged");
                 }
                 let range = pick_range(t, &src);
-                let mut cfg = config::config(t, env.f, &src, 0);
+                let mut cfg = config::config(t, env.f, &src, 24);
                 // range-targeted width: narrower than the request itself, so that whatever node is selected
                 // cannot stay on one line (a node is only ever laid out wrongly when it has to be broken; found
                 // missing when a sub-agent ran into the defect repaired by 7aa0fdd)
@@ -795,7 +798,7 @@ fn check_indent(c: &SrcCase, env: &Env, st: &mut Stats) -> Verdict {
     let units: Vec<usize> = (1..=8).collect();
     let mut outs = vec![];
     for &u in &units {
-        match fmt_or_skip(env, &c.src, &Cfg { width: config::HUGE, tab: u, reorder: false, blank: c.cfg.blank }) {
+        match fmt_or_skip(env, &c.src, &Cfg { width: config::HUGE, tab: u, reorder: c.cfg.reorder, blank: c.cfg.blank }) {
             Ok(o) => outs.push(o),
             Err(v) => return v,
         }
@@ -810,7 +813,7 @@ fn check_indent(c: &SrcCase, env: &Env, st: &mut Stats) -> Verdict {
     };
     let mut max_levels = levels;
     for u in [3usize, 4, 5, 7, 8] {
-        let out = match fmt_or_skip(env, &c.src, &Cfg { width: c.cfg.width, tab: u, reorder: false, blank: c.cfg.blank }) {
+        let out = match fmt_or_skip(env, &c.src, &Cfg { width: c.cfg.width, tab: u, reorder: c.cfg.reorder, blank: c.cfg.blank }) {
             Ok(o) => o,
             Err(v) => return v,
         };
@@ -1223,8 +1226,9 @@ fn check_range(c: &SrcCase, env: &Env, st: &mut Stats) -> Verdict {
                     format!("replacing {start}..{end} ({kind}) with {:?} gives a text with syntax errors", syn::clip(&text, 200)),
                 );
             }
-            let a = oracle::normal::normalize(&root, NormOpts::default());
-            let b = oracle::normal::normalize(&sroot, NormOpts::default());
+            let nopts = || NormOpts { sort_imports: c.cfg.reorder };
+            let a = oracle::normal::normalize(&root, nopts());
+            let b = oracle::normal::normalize(&sroot, nopts());
             match oracle::first_diff(&a, &b) {
                 None => {
                     st.label(&format!("node:{kind}"));
@@ -1232,7 +1236,7 @@ fn check_range(c: &SrcCase, env: &Env, st: &mut Stats) -> Verdict {
                 }
                 Some((i, d)) => {
                     if let Some(o) = full.ok() {
-                        let c = oracle::normal::normalize(&syn::parse(o), NormOpts::default());
+                        let c = oracle::normal::normalize(&syn::parse(o), nopts());
                         if oracle::first_diff(&a, &c).is_some() {
                             return Verdict::skip("deferred_to_C01:whole-document-tree-differs-too");
                         }
